@@ -1,4 +1,6 @@
-(* The allocation counter `next` only moves in GetOrNewLock: by at most one per action. *)
+(* Groundwork for bounding the allocation counter `next` (it only moves in GetOrNewLock): the primitives of
+   Queues.v / Timers.v leave it unchanged.  The critical sections are not covered yet; InvMain.v therefore states its
+   run theorem for runs satisfying bounded_run. *)
 From Coq Require Import String ZifyN ZifyBool ZifyNat.
 From Slock Require Import Engine.Types Engine.Queues Engine.Timers Engine.Engine Engine.Engine2 Engine.InvDef Engine.InvLockDefs.
 Open Scope N_scope.
@@ -97,22 +99,3 @@ Proof. unfold update_and_rearm. cbv zeta. repeat dm; cbn [fst]; autorewrite with
   autorewrite with nx. reflexivity. Qed.
 #[export] Hint Rewrite nx_add_lock nx_update_locked_lock : nx.
 
-Ltac nxp :=
-  repeat match goal with
-  | H : (if ?b then _ else _) = (_, _) |- _ => destruct b
-  | H : (match ?b with _ => _ end) = (_, _) |- _ => destruct b
-  | H : (_, _) = (_, _) |- _ => inversion H; subst; clear H
-  | H : next _ = next (if ?b then _ else _) |- _ => destruct b
-  | H : next _ = next (match ?b with _ => _ end) |- _ => destruct b
-  | H : (let '(_, _) := ?x in _) = (_, _) |- _ => destruct x eqn:?
-  | H : push_lock_aof ?s0 ?k ?r ?f = (?s1, _) |- _ => let X := fresh in pose proof (nx_push_lock_aof s0 k r f) as X; rewrite H in X; cbn [fst] in X; clear H
-  | H : push_unlock_aof ?s0 ?k ?r ?a ?b ?c ?d = (?s1, _) |- _ => let X := fresh in pose proof (nx_push_unlock_aof s0 k r a b c d) as X; rewrite H in X; cbn [fst] in X; clear H
-  | H : add_expried ?s0 ?k ?r = (?s1, _) |- _ => let X := fresh in pose proof (nx_add_expried s0 k r) as X; rewrite H in X; cbn [fst] in X; clear H
-  | H : process_data ?s0 ?k ?r ?c ?b = (?s1, _) |- _ => let X := fresh in pose proof (nx_process_data s0 k r c b) as X; rewrite H in X; cbn [fst] in X; clear H
-  | H : update_and_rearm ?s0 ?k ?r ?c = (?s1, _) |- _ => let X := fresh in pose proof (nx_update_and_rearm s0 k r c) as X; rewrite H in X; cbn [fst] in X; clear H
-  | H : get_wait_lock ?s0 ?k = (?s1, _) |- _ => let X := fresh in pose proof (nx_get_wait_lock s0 k) as X; rewrite H in X; cbn [fst] in X; clear H
-  end.
-Ltac nxs := cbn [fst snd] in *; autorewrite with nx in *; try reflexivity; try congruence.
-
-Lemma nx_wake_grant s k r via : next (fst (wake_grant s k r via)) = next s.
-Proof. unfold wake_grant. cbv zeta. repeat dm. all: try (nxp; nxs; fail).  Show. 
